@@ -330,6 +330,9 @@ func c16Production(ctx *Ctx, i int) {
 	recv := map[string]interface{}{"p": p, "payment": &payment.PaymentService{NonceStore: st, AccountStore: st, BalanceStore: st},
 		"dashboard": &status.PoolStatus{Store: st, CacheDuration: time.Minute}}
 	regs := productionRegistrations(ctx.Repo)
+	if ctx.Want(i + 40) {
+		c16Deep(ctx, i+40, recv)
+	}
 	var mon []string
 	for k, r := range regs {
 		srv := &jsonrpc2.Server{}
@@ -506,7 +509,7 @@ func runC16(ctx *Ctx) {
 	if ctx.Want(n) || ctx.Want(n+20) || ctx.Want(n+21) || ctx.Want(n+22) || ctx.Want(n+23) || ctx.Want(n+24) {
 		c16BadReturns(ctx, n)
 	}
-	if ctx.Want(n+1) || ctx.Want(n+2) || ctx.Want(n+3) {
+	if ctx.Want(n+1) || ctx.Want(n+2) || ctx.Want(n+3) || ctx.Want(n+41) {
 		c16Production(ctx, n+1)
 	}
 	if ctx.Want(n + 10) {
